@@ -20,6 +20,11 @@ class Boom(Exception):
     pass
 
 
+# what a failing processor raises: its own exception class, or the ordinary ones an exporter really produces (a slow collector: TimeoutError)
+EXC_KINDS = {"boom": Boom, "timeout": TimeoutError, "key": KeyError, "stop": StopIteration, "assert": AssertionError, "oserror": ConnectionError}
+_EXC: list[type] = [Boom]
+
+
 class FailingSync(EventProcessor):
     """Raises at the given event indices (or always) and/or at shutdown; records what it received."""
 
@@ -35,12 +40,12 @@ class FailingSync(EventProcessor):
         self.received.append(i)
         if self.always or i in self.fail_at:
             _meddle(event)
-            raise Boom(f"processor failure at event {i}")
+            raise _EXC[0](f"processor failure at event {i}")
 
     def shutdown(self) -> None:
         self.shutdowns += 1
         if self.fail_shutdown:
-            raise Boom("processor failure at shutdown")
+            raise _EXC[0]("processor failure at shutdown")
 
 
 def _meddle(event: Any) -> None:
@@ -72,12 +77,12 @@ class FailingAsync(AsyncEventProcessor):
         self.received.append(i)
         if self.always or i in self.fail_at:
             _meddle(event)
-            raise Boom(f"processor failure at event {i}")
+            raise _EXC[0](f"processor failure at event {i}")
 
     def shutdown(self) -> None:
         self.shutdowns += 1
         if self.fail_shutdown:
-            raise Boom("processor failure at shutdown")
+            raise _EXC[0]("processor failure at shutdown")
 
     async def shutdown_async(self) -> None:
         self.shutdown()
@@ -102,7 +107,16 @@ class _Unhashable:
     __hash__ = None  # type: ignore[assignment]
 
 
+class _Sized:
+    """A container-like processor: len(p) = number of events collected so far — EMPTY, hence falsy, when it is registered."""
+
+    def __len__(self) -> int:
+        return len(getattr(self, "events", getattr(self, "received", [])))
+
+
 def _variant(cls: type, kind: str) -> type:
+    if kind == "sized":
+        return type(cls.__name__ + "Sized", (_Sized, cls), {})
     if kind == "equal":
         return type(cls.__name__ + "Eq", (_EqualToAll, cls), {})
     if kind == "unhashable":
@@ -138,7 +152,8 @@ class C13(Prop):
                 c = rng.choice(gens)()
             yield {"program": c["program"], "values": c["values"], "cfg": c.get("cfg", {}), "runner": rng.choice(["sync", "async"]),
                    "flavour": rng.choice(["sync", "async"]), "sample_seed": rng.randint(0, 10**6),
-                   "procKind": rng.choice(["plain", "plain", "equal", "unhashable"]), "warnErr": rng.random() < 0.3,
+                   "procKind": rng.choice(["plain", "plain", "equal", "unhashable", "sized"]), "warnErr": rng.random() < 0.3,
+                   "excKind": rng.choice(list(EXC_KINDS)),
                    "disp": {"n": rng.randint(1, 8), "procs": [self._rand_proc(rng) for _ in range(rng.randint(1, 4))]}}
 
     @staticmethod
@@ -173,6 +188,7 @@ class C13(Prop):
                              warn_mode="error" if case.get("warnErr") else "always")
 
     def impl(self, case: dict) -> Any:
+        _EXC[0] = EXC_KINDS[case.get("excKind", "boom")]
         base = self._run(case, [])
         rec0 = impl.Recorder()
         ref = self._run(case, [rec0])
